@@ -1008,8 +1008,12 @@ func (g *G) idiom(d int, nest bool) *m.Node {
 		default:
 			return m.Op("overlap", m.Const([]int64{rapid.Int64Range(-2, 3).Draw(g.t, "idiom_k2")}), g.Leaf(m.TIntList))
 		}
-	default: // between written out, and the real thing
-		return m.Op(g.alias("and", "or"), m.Op("between", x, li(), li()), m.Op(g.alias(">=", "<"), x.Clone(), li()))
+	default: // between written out, and the real thing (now and then over a single-point or an empty range)
+		lo, hi := li(), li()
+		if k, ok := lo.Val.(int64); ok && lo.Kind == m.KConst && rapid.IntRange(0, 2).Draw(g.t, "idiom_point") == 0 {
+			hi = m.Const(k + int64(rapid.IntRange(-1, 1).Draw(g.t, "idiom_pointd")))
+		}
+		return m.Op(g.alias("and", "or"), m.Op("between", x, lo, hi), m.Op(g.alias(">=", "<"), x.Clone(), li()))
 	}
 }
 
